@@ -57,7 +57,7 @@ from vgi_rpc.rpc._transport import UnixTransport
 
 PROPERTY = "C33"
 LEVEL = "exploration"
-QUICK_RUNS = 3000
+QUICK_RUNS = 2400
 THOROUGH_RUNS = 80_000
 QUICK_BUDGET_S = 100
 THOROUGH_BUDGET_S = 1500
